@@ -343,6 +343,16 @@ func (w *World) healSuffix() {
 			w.Stats["heal-et-max"] = et
 		}
 		w.Stats["heal-converged"]++
+		w.sample("C15", func() any {
+			st := map[string]int{}
+			for k, v := range w.Stats {
+				if strings.HasPrefix(k, "heal-start-") {
+					st[k] = v
+				}
+			}
+			l := w.topLeader()
+			return map[string]any{"start_conditions": st, "election_timeouts_to_converge": et, "leader": l.id, "term": l.st.Term, "log_length": l.st.LastIndex, "config": confOf(l.st.Conf).String()}
+		})
 		w.finalProbes()
 		return
 	}
